@@ -55,9 +55,12 @@ static int prep_rich(const char *path)
     ann = ANcreatef(an, AN_FILE_DESC); ANwriteann(ann, "file description", 16); ANendaccess(ann); ANend(an);
     gr = GRstart(fid); { int32 dims[2] = {5, 4}, st[2] = {0, 0}; ri = GRcreate(gr, "img", 3, DFNT_UINT8, MFGR_INTERLACE_PIXEL, dims); wl_fill(b, 600, 6); GRwriteimage(ri, st, NULL, dims, b); int32 av = 79; GRsetattr(ri, "iatt", DFNT_INT32, 1, &av); av = 80; GRsetattr(gr, "gatt", DFNT_INT32, 1, &av); GRendaccess(ri); } GRend(gr);
     if (Hclose(fid) == FAIL) return -1;
+    /* an old-style (DFR8) raster stored run-length encoded: GR reaches it through the compressed-raster special element */
+    { uint8 r8[8 * 6]; for (int i = 0; i < 48; i++) r8[i] = (uint8)(i / 8 + 3); if (DFR8addimage(path, r8, 8, 6, COMP_RLE) == FAIL) return -1; }
     sd = SDstart(path, DFACC_RDWR); if (sd == FAIL) return -1;
     { int32 dims[2] = {4, 6}, st[2] = {0, 0}; int16 v[24]; for (int i = 0; i < 24; i++) v[i] = (int16)(i * 3 - 7);
       sds = SDcreate(sd, "temp", DFNT_INT16, 2, dims); SDwritedata(sds, st, NULL, dims, v); float32 f = 2.5f; SDsetattr(sds, "scale", DFNT_FLOAT32, 1, &f); SDendaccess(sds); }
+    { int32 d1[1] = {6}; int32 nd = SDcreate(sd, "nodata", DFNT_INT32, 1, d1); if (nd == FAIL) return -1; SDendaccess(nd); }   /* a data set that never got data */
     SDsetattr(sd, "title", DFNT_CHAR8, 5, "hello");
     return SDend(sd);
 }
